@@ -22,6 +22,7 @@ TV   TraceProver: ConstraintSystem!Satisfied over the BLS12-381 scalar field
 """
 import collections
 import json
+import os
 
 import life_common as lc
 import vlib
@@ -31,27 +32,30 @@ def judge_forced(ck, traces):
     """Runs TraceProver over the forced-instance traces. Returns
     {scenario id: predicted outcome of the honest prover}."""
     verdict = {}
+    # one trace (one TLC start): the shards' event files are concatenated
+    events = []
     for tp in traces:
-        events = vlib.read_ndjson_text(open(tp).read())
-        if not events:
-            continue
-        tv = vlib.tlc("TraceProver", workers=1, trace=True, env={"TRACE": tp}, timeout=3000,
-                      heap="6g")
-        ck.add_tlc(tv, "TraceProver (forced instances)", {"field": "BLS12-381 scalar field"},
-                   exhaustive=False)
-        n_prove = sum(1 for e in events if e.get("ev") == "prove")
-        got = 0
-        for l in tv.out.splitlines():
-            if l.startswith('"VERDICT|') or l.startswith('"MISMATCH|'):
-                f = l.strip('"').split("|")
-                line = int(f[1])
-                e = events[line - 1]
-                verdict[e["id"]] = {"spec": f[2], "mismatch": f[0] == "MISMATCH", "event": e}
-                got += 1
-        if got != n_prove or tv.diameter - 1 != len(events):
-            raise vlib.ToolError("TraceProver judged %d of %d forced instances (%d/%d lines)\n%s"
-                                 % (got, n_prove, tv.diameter - 1, len(events), tv.out[-2000:]))
-        ck.traces += 1
+        events += vlib.read_ndjson_text(open(tp).read())
+    if not events:
+        return verdict
+    allp = os.path.join(os.path.dirname(traces[0]), "forced-all.ndjson")
+    vlib.write_ndjson(allp, events)
+    tv = vlib.tlc("TraceProver", workers=1, trace=True, env={"TRACE": allp}, timeout=3000,
+                  heap="6g")
+    ck.add_tlc(tv, "TraceProver (forced instances)", {"field": "BLS12-381 scalar field"},
+               exhaustive=False)
+    n_prove = sum(1 for e in events if e.get("ev") == "prove")
+    got = 0
+    for l in tv.out.splitlines():
+        if l.startswith('"VERDICT|') or l.startswith('"MISMATCH|'):
+            f = l.strip('"').split("|")
+            e = events[int(f[1]) - 1]
+            verdict[e["id"]] = {"spec": f[2], "mismatch": f[0] == "MISMATCH", "event": e}
+            got += 1
+    if got != n_prove or tv.diameter - 1 != len(events):
+        raise vlib.ToolError("TraceProver judged %d of %d forced instances (%d/%d lines)\n%s"
+                             % (got, n_prove, tv.diameter - 1, len(events), tv.out[-2000:]))
+    ck.traces += 1
     return verdict
 
 
